@@ -147,6 +147,11 @@ def abiLenPrefix (out : Bytes) (index : Nat) : Option (Nat × Nat) :=
   let len := beToNat ((out.drop (off - 32)).take 32)
   if out.length < off + len then none else some (off, len)
 
+/-- `forEachUnpack` for `uint256` elements: `n` consecutive words (the loop advances by 32 bytes per element) -/
+def words : Nat → Bytes → List Nat
+  | 0, _ => []
+  | n + 1, o => beToNat (o.take 32) :: words n (o.drop 32)
+
 /-- `toGoType` of a `uint256[]` head slot -/
 def abiUints (out : Bytes) (index : Nat) : Option (List Nat) :=
   match abiLenPrefix out index with
@@ -154,7 +159,7 @@ def abiUints (out : Bytes) (index : Nat) : Option (List Nat) :=
   | some (b, n) =>
     let o := out.drop b
     if o.length < 32 * n then none
-    else some ((List.range n).map fun j => beToNat ((o.drop (32 * j)).take 32))
+    else some (words n o)
 
 /-- `toGoType` of a `bytes` head slot -/
 def abiBytes (out : Bytes) (index : Nat) : Option Bytes :=
@@ -331,6 +336,13 @@ def relay (i : Input) : Out :=
     | .panic => .panicDst
     | .ok p => .ok p
 
+/-- a message handed directly to a destination handler (the driver's `msg` op) -/
+def destOut (k : DstKind) (m : Msg) : Out :=
+  match dest k m with
+  | .ok p => .ok p
+  | .err => .errDst
+  | .panic => .panicDst
+
 /-! ## reference wire formats (written from the Sygma handler formats, independent of the code above) -/
 
 /-- a fungible deposit as the depositor meant it -/
@@ -499,6 +511,38 @@ def expected (i : Input) : Option Out :=
         | .btc => if i.num < 2 ^ 64 then some (.ok ⟨id, .btc i.num addr, none⟩) else none
       else none
     | _ => none
+
+/-- what C01 demands of a destination handler on a message whose fields fit the destination wire format: every length
+    word / length byte carries the FULL length of the field that follows and the field bytes follow unaltered.
+    `none`: the message does not fit the wire format (e.g. a 70000-byte function signature for a uint16 length field) —
+    such a message cannot come out of a deposit handler; the model still says what the code does with it. -/
+def expectedMsg (dk : DstKind) (m : Msg) : Option Out :=
+  match dk, m.typ, m.payload with
+  | .evm, .fungible, [.bytes a, .bytes r] =>
+    if a.length = 32 then some (.ok ⟨m.id, .evm (Canon.subFungible (beToNat a) r), m.gas⟩) else none
+  | .evm, .fungible, [.bytes a, .bytes r, .bytes o] =>
+    if a.length = 32 then some (.ok ⟨m.id, .evm (Canon.subFungible (beToNat a) r ++ o), m.gas⟩) else none
+  | .sub, .fungible, [.bytes a, .bytes r] =>
+    if a.length = 32 then some (.ok ⟨m.id, .evm (Canon.subFungible (beToNat a) r), m.gas⟩) else none
+  | .btc, .fungible, [.bytes a, .bytes r] =>
+    if beToNat a / 10 ^ 10 < 2 ^ 64 then some (.ok ⟨m.id, .btc (beToNat a / 10 ^ 10) r, none⟩) else none
+  | .evm, .nonFungible, [.bytes t, .bytes r, .bytes md] =>
+    if t.length = 32 then some (.ok ⟨m.id, .evm (Canon.nft (beToNat t) r md), m.gas⟩) else none
+  | .evm, .permissionlessGeneric, [.bytes fs, .bytes ca, .bytes fee, .bytes dep, .bytes ex] =>
+    if fee.length = 32 ∧ fs.length < 65536 ∧ ca.length < 256 ∧ dep.length < 256 then
+      some (.ok ⟨m.id, .evm (Src.generic (beToNat fee) fs ca dep ex), m.gas⟩) else none
+  | .evm, .permissionedGeneric, [.bytes md] => some (.ok ⟨m.id, .evm (pad32 md.length ++ md), m.gas⟩)
+  | .evm, .semiFungible, [.ints ids, .ints ams, .bytes r, .bytes d] =>
+    if (⟨ids, ams, r, d⟩ : Semi).WF then some (.ok ⟨m.id, .evm (abiEncode1155 ⟨ids, ams, r, d⟩), m.gas⟩) else none
+  | _, _, _ => none
+
+def P01m (dk : DstKind) (m : Msg) (o : Out) : Prop :=
+  match expectedMsg dk m with
+  | none => True
+  | some e => o = e
+
+instance (dk : DstKind) (m : Msg) (o : Out) : Decidable (P01m dk m o) := by
+  unfold P01m; cases expectedMsg dk m <;> infer_instance
 
 /-- P01: a well-formed deposit yields exactly the expected proposal -/
 def P01 (i : Input) (o : Out) : Prop :=
